@@ -7,7 +7,7 @@ for id in "$@"; do for d in /tmp/mut/$id.out/m*; do [ -f "$d/patch.diff" ] && [ 
 printf '%s\n' "${dirs[@]}" | xargs -P 4 -I{} sh -c '[ -f {}/confirm.json ] || python3 lib/seedtest.py {} --confirm-only > {}/confirm.log 2>&1'
 for d in "${dirs[@]}"; do
   name=$(basename $(dirname $d) .out); k=$(basename $d)
-  keep=$(echo $name | sed 's/r[23456]$//')-$(echo $name | grep -o 'r[23456]$')$k
+  keep=$(echo $name | sed 's/r[2-9]$//')-$(echo $name | grep -o 'r[2-9]$')$k
   if grep -q '"ok": true' $d/confirm.json 2>/dev/null; then
     python3 lib/seedtest.py $d --no-confirm --scratch --keep $keep > $d/check.log 2>&1
     echo "$keep $(tail -1 $d/check.log) :: $(grep -m1 '^  ' $d/check.log | cut -c1-170)"
